@@ -360,7 +360,9 @@ func (h *hintMgr) dump(chunkID, splitID int) (err error) {
 
 	path := h.getPath(chunkID, splitID, false)
 	logger.Infof("dump %s", path)
+	verifPoint("hint:before-dump")
 	sp.file, err = sp.buf.Dump(path)
+	verifPoint("hint:after-dump")
 	if err == nil {
 		h.maxDumpedHintID.setIfLarger(chunkID, splitID)
 	}
